@@ -60,6 +60,10 @@ type MetricRegistry struct {
 	mu sync.Mutex
 	wg sync.WaitGroup
 
+	// lifecycleMu serialises Start and Stop. It is never taken by the poller, so Stop can
+	// wait for the poller while holding it (the poller needs mu on every tick).
+	lifecycleMu sync.Mutex
+
 	started bool
 	stopper chan bool
 }
@@ -99,7 +103,7 @@ func NewGoMetricsMetricRegistry(
 
 // Start will start the metric registry polling
 func (r *MetricRegistry) Start() {
-	r.mu.Lock()
+	r.lifecycleMu.Lock()
 	if !r.started {
 		r.started = true
 		r.wg.Add(1)
@@ -108,7 +112,7 @@ func (r *MetricRegistry) Start() {
 			r.run()
 		}()
 	}
-	r.mu.Unlock()
+	r.lifecycleMu.Unlock()
 }
 
 func (r *MetricRegistry) run() {
@@ -134,15 +138,15 @@ func (r *MetricRegistry) run() {
 
 // Stop will gracefully stop the registry
 func (r *MetricRegistry) Stop() {
-	r.mu.Lock()
+	r.lifecycleMu.Lock()
 	if !r.started {
-		r.mu.Unlock()
+		r.lifecycleMu.Unlock()
 		return
 	}
 	r.stopper <- true
 	r.wg.Wait()
 	r.started = false
-	r.mu.Unlock()
+	r.lifecycleMu.Unlock()
 }
 
 // RegisterDistribution will register a distribution sample to this registry
